@@ -100,6 +100,9 @@ def _dict(ip, xs=None, **kw):
     if xs is not None:
         if isinstance(xs, dict):
             d.update(xs)
+        elif isinstance(xs, PyObj) and "keys" in xs.attrs and "__getitem__" in xs.attrs:  # S-PY: the mapping protocol (keys() + [])
+            for k in ip.iterate(ip.call(xs.attrs["keys"], [], {})):
+                d[ip.hashable(k)] = ip.call(xs.attrs["__getitem__"], [k], {})
         else:
             for k, v in ip.iterate(xs):
                 d[ip.hashable(k)] = v
@@ -169,6 +172,19 @@ def _isinstance(ip, x, cls):
         h = ip.models.get("isinstance:" + n)
         if h:
             return h(ip, x)
+        if n in ("collections.abc.Container", "typing.Container", "collections.abc.Collection", "collections.abc.Sized"):
+            # S-PY: lists, tuples, sets, dicts and strings define __contains__ / __len__; one-shot iterators and generators do not
+            from .interp import FmtStr
+
+            if isinstance(x, (list, tuple, set, frozenset, dict, str, FmtStr, SetList)):
+                return True
+            if isinstance(x, PyObj) and x.name == "iterator":
+                return False
+        if n in ("collections.abc.Iterator", "collections.abc.Generator", "typing.Iterator"):
+            if isinstance(x, (list, tuple, set, frozenset, dict, str, SetList)):
+                return False
+            if isinstance(x, PyObj) and x.name == "iterator":
+                return True
     raise Unsupported(f"isinstance(_, {cls!r})")
 
 
@@ -310,6 +326,10 @@ def _int(ip, x=0):
         return x
     if is_z3(x) and z3.is_bool(x):
         return to_sort(x, z3.IntSort())
+    if is_z3(x) and x.sort() == z3.RealSort():
+        return z3.If(x >= 0, z3.ToInt(x), -z3.ToInt(-x))  # S-PY: int() of a float truncates towards zero
+    if isinstance(x, float):
+        return int(x)
     raise Unsupported("int()")
 
 
@@ -775,3 +795,31 @@ def _floor(ip, x):
     if is_z3(x) and x.sort() == z3.RealSort():
         return z3.ToInt(x)
     raise Unsupported("math.floor")
+
+
+def _re_obj(ip, pattern, flags=0):
+    """S-PY: the `re` module on CONCRETE strings (pattern and subject): the real implementation is used; symbolic strings are outside the subset"""
+    import re as _re
+
+    if not isinstance(pattern, str) or not isinstance(flags, int):
+        raise Unsupported("re with a symbolic pattern")
+    rx = _re.compile(pattern, flags)
+
+    def wrap(fn):
+        def f(ip_, s, *a):
+            if not isinstance(s, str) or any(not isinstance(x, (int, str)) for x in a):
+                raise Unsupported("re on a symbolic string")
+            m = fn(s, *a)
+            if m is None or isinstance(m, (str, list, tuple)):
+                return m
+            return PyObj("re.Match", group=PyFn(lambda ip2, *g: m.group(*g), "group"), groups=PyFn(lambda ip2: m.groups(), "groups"), start=PyFn(lambda ip2, *g: m.start(*g), "start"),
+                         end=PyFn(lambda ip2, *g: m.end(*g), "end"), span=PyFn(lambda ip2, *g: m.span(*g), "span"))
+        return f
+    return PyObj("re.Pattern", pattern=pattern, search=PyFn(wrap(rx.search), "search"), match=PyFn(wrap(rx.match), "match"), fullmatch=PyFn(wrap(rx.fullmatch), "fullmatch"),
+                 findall=PyFn(wrap(rx.findall), "findall"), sub=PyFn(lambda ip_, repl, s_, count=0: rx.sub(repl, s_, count) if isinstance(repl, str) and isinstance(s_, str) else (_ for _ in ()).throw(Unsupported("re.sub")), "sub"))
+
+
+MODELS["re.compile"] = _re_obj
+for _nm in ("search", "match", "fullmatch", "findall"):
+    MODELS[f"re.{_nm}"] = (lambda nm: lambda ip, pattern, s, flags=0: ip.call(_re_obj(ip, pattern, flags).attrs[nm], [s], {}))(_nm)
+MODELS["re.sub"] = lambda ip, pattern, repl, s, count=0, flags=0: ip.call(_re_obj(ip, pattern, flags).attrs["sub"], [repl, s, count], {})
